@@ -269,7 +269,7 @@ def main(mod, argv):
     try:
         import gen_all
         with build_lock():
-            changed = gen_all.generate_all()      # every Gen/*.lean follows /repo on every run
+            changed = gen_all.generate_all(prop)      # every Gen/*.lean follows /repo on every run
             changed += [c for c in mod.translate(ctx) if c not in changed]
         proof_info['regenerated'] = changed
     except Exception as e:  # translator met something it does not understand
